@@ -195,7 +195,7 @@ pub fn run() -> i32 {
     let tier = ctx.tier;
     let gh_max = tier.pick(700usize, 2100);
     let max = tier.pick(2100usize, 4200);
-    ctx.rule = format!("full products per primitive, each cell compared with libsodium: BLAKE2b every (outlen 16..=64) x (no key | every key length 16..=64) x every input length 0..={} (classic one-shot, init/update/final, GenericHash<K,O> for 24 const instantiations); SHA-512, HMAC-SHA-512-256, Poly1305, SipHash-2-4: every length 0..={} x 5 keys x 4 contents (classic and object API); every primitive additionally on large inputs (4 KiB..64 KiB+1, thorough to 1 MiB+1); Poly1305 constructed operands (r/s corner values x all 1..=4-block strings over 5 block values + partial tails; accumulators solved to hit p-2..p+6, 2^130-6..2^130+6, 2p-2..2p+2 exactly); HSalsa20/HChaCha20 key x input alphabet, all 384 single-bit inputs, with/without custom constants; little-endian increment for every 1- and 2-byte value, all-0xff lengths 0..=16 and carry boundaries; verify functions: correct tag accepted, every single-bit mutation rejected, every proper prefix of the correct tag (Vec containers) never accepted; a corpus of the cells (every 3rd length) is written for the independent Python reference; non-trivial = cell executed in dryoc and libsodium", gh_max, max);
+    ctx.rule = format!("full products per primitive, each cell compared with libsodium: BLAKE2b every (outlen 16..=64) x (no key | every key length 16..=64) x every input length 0..={} (classic one-shot, init/update/final, GenericHash<K,O> for 24 const instantiations); SHA-512, HMAC-SHA-512-256, Poly1305, SipHash-2-4: every length 0..={} x 5 keys x 4 contents (classic and object API); every primitive additionally on large inputs (4 KiB..64 KiB+1, thorough to 1 MiB+1); Poly1305 constructed operands (r/s corner values x all 1..=4-block strings over 5 block values + partial tails; accumulators solved to hit p-2..p+6, 2^130-6..2^130+6, 2p-2..2p+2 exactly); HSalsa20/HChaCha20 key x input alphabet, all 384 single-bit inputs, with/without custom constants; little-endian increment for every 1- and 2-byte value, all-0xff lengths 0..=16 and carry boundaries; verify functions: correct tag accepted, every single-bit mutation, every two-bit mutation and structured multi-bit mutations (same difference in every 4/8/16-byte word, halves swapped, complement) rejected, every proper prefix of the correct tag (Vec containers) never accepted; a corpus of the cells (every 3rd length) is written for the independent Python reference; non-trivial = cell executed in dryoc and libsodium", gh_max, max);
     ctx.assume("reference 1: libsodium 1.0.18 in-process; reference 2: Python hashlib/hmac/big-integer re-computation of the dumped corpus (ref/spec_check.py), run by bin/check after this binary");
     ctx.assume("inputs of 2^64 bytes or more are excluded, as in the property");
 
@@ -341,6 +341,83 @@ pub fn run() -> i32 {
                 }
             }
             st.eval(&("verify", len), true, if rejected == 384 { "verify-rejects-all-384-mutations" } else { "verify-accepts-mutation" });
+            // every two-bit mutation, and structured multi-bit ones (the same difference in several
+            // words, halves swapped, complemented): a comparison that folds word differences
+            // together wrongly accepts exactly such values
+            if len == 0 || len == 17 {
+                let mut all_rejected = true;
+                let mut muts_a: Vec<[u8; 32]> = vec![];
+                for i in 0..256 {
+                    for j in (i + 1)..256 {
+                        let mut t = good;
+                        t[i / 8] ^= 1 << (i % 8);
+                        t[j / 8] ^= 1 << (j % 8);
+                        muts_a.push(t);
+                    }
+                }
+                for w in [4usize, 8, 16] {
+                    for d in [1u8, 0x80, 0xff] {
+                        let mut t = good;
+                        for k in (0..32).step_by(w) {
+                            t[k] ^= d;
+                        }
+                        muts_a.push(t);
+                    }
+                }
+                let mut sw = good;
+                sw.rotate_left(16);
+                if sw != good {
+                    muts_a.push(sw);
+                }
+                muts_a.push(good.map(|b| !b));
+                for t in &muts_a {
+                    let a = crypto_auth_verify(t, &m, &k32).is_err();
+                    let c = Auth::compute_and_verify(t, k32, &m).is_err();
+                    if !(a && c) {
+                        all_rejected = false;
+                        fail(st, "auth_verify", "accepts-mutated", format!("crypto_auth_verify / Auth::compute_and_verify accepted the multi-bit mutation {} of {} (len {})", hx(t), hx(&good), len), json!({"prim": "auth", "key": hx(&k32), "msg": hx(&m)}));
+                        break;
+                    }
+                }
+                let mut muts_p: Vec<[u8; 16]> = vec![];
+                for i in 0..128 {
+                    for j in (i + 1)..128 {
+                        let mut t = goodp;
+                        t[i / 8] ^= 1 << (i % 8);
+                        t[j / 8] ^= 1 << (j % 8);
+                        muts_p.push(t);
+                    }
+                }
+                for w in [4usize, 8] {
+                    for d in [1u8, 0x80, 0xff] {
+                        let mut t = goodp;
+                        for k in (0..16).step_by(w) {
+                            t[k] ^= d;
+                        }
+                        muts_p.push(t);
+                    }
+                }
+                let mut sw = goodp;
+                sw.rotate_left(8);
+                if sw != goodp {
+                    muts_p.push(sw);
+                }
+                muts_p.push(goodp.map(|b| !b));
+                for t in &muts_p {
+                    let a = crypto_onetimeauth_verify(t, &m, &k32).is_err();
+                    let c = OnetimeAuth::compute_and_verify(t, k32, &m).is_err();
+                    let mut au = OnetimeAuth::new(k32);
+                    au.update(&m);
+                    let d = au.verify(t).is_err();
+                    if !(a && c && d) {
+                        all_rejected = false;
+                        fail(st, "onetimeauth_verify", "accepts-mutated", format!("a one-time-auth verify function accepted the multi-bit mutation {} of {} (len {})", hx(t), hx(&goodp), len), json!({"prim": "onetimeauth", "key": hx(&k32), "msg": hx(&m)}));
+                        break;
+                    }
+                }
+                st.eval(&("verify-multibit", len), true, if all_rejected { "verify-rejects-all-multi-bit-mutations" } else { "verify-accepts-mutation" });
+                st.bump("multi_bit_mutations", (muts_a.len() + muts_p.len()) as u64);
+            }
             // authenticators handed over in a run-time-sized container of the wrong length (every
             // proper prefix; longer containers are by design read as their first N bytes) are "other values" too:
             // they must never be accepted (whether refused by Err or by a panic is not fixed)
